@@ -13,7 +13,7 @@ PROP = {
         ],
         "lanes": [
             native("c10", pkg="monx"),
-            # native("c07x", pkg="monx", name="files-e2e", args={"prop": "C10"}),
+            native("c07x", pkg="monx", name="files-e2e", args={"prop": "C10"}),
             # {"name": "strace", "kind": "script", "script": "c10-strace", "tiers": QT, "args": {"prop": "C10"}},
         ],
     }
